@@ -28,12 +28,14 @@ import (
 //   a real client socket -> real net/http server running proxy.Proxy.ServeHTTP -> real http.Transport -> real backend server.
 //   chunk     0 = Content-Length framing, n > 0 = chunked transfer coding with chunks of n bytes
 //   upstream  A: proxy / backend          B: proxy /api backend/base { without /api }
-//   out = method TAB path-at-backend TAB query-at-backend TAB request-body(same|differs) TAB status TAB response-body TAB trailers
+//             C: proxy /buf backend backend { try_duration 2s }   (request bodies are buffered for retries)
+//   out = method TAB path-at-backend TAB query-at-backend TAB request-body(same|differs) TAB request-framing-at-backend(cl=N|chunked)
+//         TAB status TAB response-body TAB trailers
 // This stream explores what the Lean model does not contain: net/http's parsing, framing, buffering and trailer
 // delivery on both sides of the proxy code.
 
 type c04WireSeen struct {
-	method, path, query, body string
+	method, path, query, body, framing string
 }
 
 var (
@@ -63,6 +65,11 @@ func c04WireSetup() error {
 		unannounced := c04DecEntries(f[7])
 		got, err := io.ReadAll(r.Body)
 		seen := &c04WireSeen{method: r.Method, path: r.URL.Path, query: r.URL.RawQuery, body: "same"}
+		// the framing the proxy's transport chose towards the backend
+		seen.framing = "cl=" + strconv.FormatInt(r.ContentLength, 10)
+		if len(r.TransferEncoding) > 0 && r.TransferEncoding[0] == "chunked" {
+			seen.framing = "chunked"
+		}
 		if err != nil || !bytes.Equal(got, c04Body(bodyLen, bodySeed)) {
 			seen.body = fmt.Sprintf("differs(%d)", len(got))
 		}
@@ -109,9 +116,11 @@ func c04WireSetup() error {
 			}
 		}
 	}))
-	cfg := "proxy / " + c04WireBackend.URL + "\nproxy /api " + c04WireBackend.URL + "/base {\n without /api\n}\n"
+	// block C has two backends (the same one twice) and retries on: its request bodies are buffered
+	cfg := "proxy / " + c04WireBackend.URL + "\nproxy /api " + c04WireBackend.URL + "/base {\n without /api\n}\n" +
+		"proxy /buf " + c04WireBackend.URL + " " + c04WireBackend.URL + " {\n try_duration 2s\n}\n"
 	ups, err := proxy.NewStaticUpstreams(casketfile.NewDispenser("Testfile", strings.NewReader(cfg)), "")
-	if err != nil || len(ups) != 2 {
+	if err != nil || len(ups) != 3 {
 		return fmt.Errorf("upstreams: %v", err)
 	}
 	c04WireUps = ups
@@ -207,8 +216,8 @@ func c04WireEval(f []string) (string, []string) {
 	if seen == nil {
 		return "backend-not-reached:" + strconv.Itoa(resp.StatusCode), nil
 	}
-	out := strings.Join([]string{hx.HS(seen.method), hx.HS(seen.path), hx.HS(seen.query), seen.body, strconv.Itoa(resp.StatusCode), rb, c04ShowHeader(resp.Trailer)}, "\t")
-	tags := []string{"upstream=" + f[7]}
+	out := strings.Join([]string{hx.HS(seen.method), hx.HS(seen.path), hx.HS(seen.query), seen.body, seen.framing, strconv.Itoa(resp.StatusCode), rb, c04ShowHeader(resp.Trailer)}, "\t")
+	tags := []string{"upstream=" + f[7], "framing-to-backend=" + strings.SplitN(seen.framing, "=", 2)[0]}
 	if chunk > 0 {
 		tags = append(tags, "request-chunked")
 	}
@@ -245,6 +254,9 @@ func c04WireGen(g *hx.Gen) {
 		if strings.HasPrefix(strings.ToLower(u.Path), "/api") {
 			ups = "B"
 		}
+		if strings.HasPrefix(strings.ToLower(u.Path), "/buf") {
+			ups = "C"
+		}
 		rc := "0"
 		if respChunked || len(ann) > 0 || len(unann) > 0 {
 			rc = "1"
@@ -263,6 +275,7 @@ func c04WireGen(g *hx.Gen) {
 			for _, m := range []string{"POST", "PUT"} {
 				emit(m, "/up", "a=1", n, uint64(n)+1, ch, "A", 200, 2, 1, false, nil, nil)
 				emit(m, "/api/up", "", n, uint64(n)+2, ch, "B", 201, 0, 1, false, nil, nil)
+				emit(m, "/buf/up", "", n, uint64(n)+3, ch, "C", 200, 1, 1, false, nil, nil)
 			}
 		}
 		if n > 0 && n < 5000 {
@@ -310,10 +323,13 @@ func c04WireGen(g *hx.Gen) {
 		if r.Chance(1, 3) {
 			unann = t2
 		}
-		p := hx.Pick(r, []string{"/x", "/api/x", "/a%2Fb/c", "/api/y%20z"})
+		p := hx.Pick(r, []string{"/x", "/api/x", "/a%2Fb/c", "/api/y%20z", "/buf/x", "/buf/y%2Fz"})
 		ups := "A"
 		if strings.HasPrefix(p, "/api") {
 			ups = "B"
+		}
+		if strings.HasPrefix(p, "/buf") {
+			ups = "C"
 		}
 		emit(hx.Pick(r, []string{"POST", "PUT", "GET"}), p, hx.Pick(r, c04Queries), n, r.U64()%1000, ch, ups,
 			hx.Pick(r, []int{200, 201, 404, 500}), r.Intn(150000), r.U64()%1000, r.Bool(), ann, unann)
